@@ -289,6 +289,10 @@ def build_trace(case, log):
         if k in ("add", "remove"):
             cur = None
             trace.append((k, e[1], e[2]))
+            # the series dictionary changes while a gather is in flight: resample() then pairs results with
+            # the wrong sources (or dies with IndexError); which error it reports is not modelled
+            for t in open_exit.values():
+                t["disturbed"] = True
         elif k == "hog":
             cur = None
         elif k == "srcstop":
@@ -324,8 +328,8 @@ def build_trace(case, log):
     for it in trace:
         if it[0] == "tick":
             t = it[1]
-            if len(t["exits"]) < len(t["outs"]) or (t["fail"] and t["marker"] is None):
-                t["fail"] = []
+            if len(t["exits"]) < len(t["outs"]) or (t["fail"] and t["marker"] is None) or t.get("disturbed") \
+                    or t["marker"] == "crash":
                 t["incomplete"] = True
     return trace
 
@@ -668,10 +672,49 @@ def gen_c08_case(rng, tier):
         if rng.random() < 0.35:
             s["lat"] = {str(rng.randrange(0, 10)): rng.choice([p // 2, p, 3 * p // 2, 5 * p // 2]) // 1000 * 1000}
         series.append(s)
-    return {"period": p, "align": align, "start": start, "loop_t0": loop_t0, "age": age, "init_len": init_len,
+    case = {"period": p, "align": align, "start": start, "loop_t0": loop_t0, "age": age, "init_len": init_len,
             "warn_len": warn_len, "max_len": max_len, "one_shot": rng.random() < 0.15, "duration": duration,
             "series": series, "hogs": [],
-            "tag": {"ordered": not out_of_order}}
+            "tag": {"ordered": all(is_time_ordered(s["samples"]) for s in series)}}
+    if rng.random() < 0.5:
+        _add_input_period_boundaries(rng, case)
+    return case
+
+
+def _add_input_period_boundaries(rng, case):
+    """Second pass for up-sampling sources: once the implementation has estimated the input period sp (> period),
+    stamp samples exactly at T - max_age*sp (and +-1 us) for later ticks T.  Best effort: the labels count hits."""
+    p, start = case["period"], case["start"]
+    an, ad = case["age"]
+    try:
+        log = run_scenario(case)["log"]
+    except Exception:
+        return
+    for sid, s in enumerate(case["series"]):
+        if not is_time_ordered(s["samples"]):
+            continue
+        ticks = [(e[2], e[4], e[6]) for e in log if e[0] == "sink" and e[1] == sid]
+        first = next(((T, sp, clk) for T, sp, clk in ticks if sp is not None), None)
+        if first is None or first[1] <= p:
+            continue
+        Tu, sp, clk_u = first
+        Rr = _div_round_he(sp * an, ad)
+        later = [T for T, _, _ in ticks if T - Rr - 1 > Tu]
+        if not later:
+            continue
+        new_ts = []
+        for T in rng.sample(later, min(len(later), 2)):
+            new_ts += [T - Rr - 1, T - Rr, T - Rr + 1]
+        nid = max([x[3] for x in s["samples"]] + [sid * 100000]) + 1
+        merged = sorted(s["samples"] + [[None, ts, 0, nid + j] for j, ts in enumerate(sorted(set(new_ts)))],
+                        key=lambda x: (x[1], x[0] is None))
+        prev = 0
+        for x in merged:
+            if x[0] is None:
+                x[0] = max(prev, clk_u + 1000)
+            x[0] = max(x[0], prev)
+            prev = x[0]
+        s["samples"] = merged
 
 
 def _div_round_he(a, b):
@@ -718,3 +761,161 @@ class ScenarioStream(Stream):
 
     def shrink(self, case):
         return shrink_scenario(case)
+
+
+def c08_boundary_cases():
+    """Hand-written: samples stamped exactly T, T+1 (arriving before the tick), exactly T - max_age*period and
+    its neighbours, None/NaN in between, capacity 1 .. 32, one-and-a-half periods of age, a silence."""
+    out = []
+    for p in (200_000, 1_000_000, 3_000_000):
+        for age in ([1, 1], [3, 2], [3, 1]):
+            for init_len in (1, 3, 32):
+                start = (BASE // p) * p + p // 2           # ticks at start + p/2 + k*p
+                g = [start + p // 2 + k * p for k in range(1, 12)]
+                Rr = _div_round_he(p * age[0], age[1])
+                stamps = []
+                for k in (1, 2, 3, 4, 6):
+                    stamps += [g[k] - Rr - 1, g[k] - Rr, g[k] - Rr + 1, g[k] - 1, g[k], g[k] + 1]
+                stamps = sorted(set(stamps))
+                samples = []
+                prev = 0
+                for j, ts in enumerate(stamps):
+                    # everything arrives early enough to be buffered at the tick it is a boundary of
+                    arr = max(prev, ts - start - (Rr if j % 2 else 0) - 1000, 0)
+                    arr = min(arr, max(prev, ts - start))
+                    prev = arr
+                    samples.append([arr, ts, 0 if j % 7 != 5 else (1 if j % 2 else 2), j])
+                out.append({"period": p, "align": 0, "start": start, "loop_t0": 0, "age": age, "init_len": init_len,
+                            "warn_len": 128, "max_len": 1024, "one_shot": False, "duration": 9 * p,
+                            "series": [{"add_at": 0, "samples": samples}], "hogs": [], "tag": {"ordered": True}})
+    return out
+
+
+# ----------------------------------------------------------------------------- the real actor (C07, oracle only)
+async def _actor_scenario(case, loop):
+    """ComponentMetricsResamplingActor with real channels: requests arrive over the request channel, sources
+    are registry channels (closing one makes its series fail with SourceStoppedError -> ResamplingError ->
+    the actor removes it and calls resample() again), outputs are read from the registry's output channels."""
+    import time_machine
+    from frequenz.channels import Broadcast
+    from frequenz.client.microgrid import ComponentMetricId
+    from frequenz.quantities import Quantity
+    from frequenz.sdk._internal._channels import ChannelRegistry
+    from frequenz.sdk.microgrid._data_sourcing import ComponentMetricRequest
+    from frequenz.sdk.microgrid._resampling import ComponentMetricsResamplingActor
+    from frequenz.sdk.timeseries import Sample
+    from frequenz.sdk.timeseries._resampling import ResamplerConfig
+    import dataclasses
+
+    env = _Env(loop)
+    log = env.log
+    clock = env.clock
+    clock._ticks += case["loop_t0"]
+    env.base = clock._ticks
+    start = case["start"]
+    with time_machine.travel(dt(start), tick=False) as ft:
+        orig_advance = clock.advance
+
+        def sync_wall():
+            ft.move_to(dt(start + env.clk()))
+
+        def advance(delta):
+            orig_advance(delta)
+            sync_wall()
+        clock.advance = advance
+        registry = ChannelRegistry(name="verif")
+        ds_chan = Broadcast[ComponentMetricRequest](name="ds")
+        ds_recv = ds_chan.new_receiver(limit=1000)
+        req_chan = Broadcast[ComponentMetricRequest](name="req")
+        cfg = ResamplerConfig(resampling_period=timedelta(microseconds=case["period"]),
+                              align_to=None if case["align"] is None else dt(case["align"]))
+        actor = ComponentMetricsResamplingActor(channel_registry=registry, data_sourcing_request_sender=ds_chan.new_sender(),
+                                                resampling_request_receiver=req_chan.new_receiver(limit=1000), config=cfg)
+        actor.start()
+        req_sender = req_chan.new_sender()
+        tasks = []
+        src_chans = {}
+
+        async def consume(sid, recv):
+            async for s in recv:
+                log.append(["out", sid, to_us(s.timestamp), env.clk()])
+
+        actions = []
+        for sid, m in enumerate(case["metrics"]):
+            actions.append((m["req_at"], 0, "req", sid))
+            if m.get("close_at") is not None:
+                actions.append((m["close_at"], 1, "close", sid))
+            for k in range(m.get("nsamples", 0)):
+                actions.append((m["req_at"] + 1000 + k * m["ip"], 3, "send", sid))
+        for at, dur in case.get("hogs", []):
+            actions.append((at, 2, "hog", dur))
+        actions.sort()
+        for at, _, kind, arg in actions:
+            await env.sleep_until(at)
+            if kind == "req":
+                req = ComponentMetricRequest("verif", arg, ComponentMetricId.ACTIVE_POWER, None)
+                out = registry.get_or_create(Sample[Quantity], req.get_channel_name()).new_receiver(limit=1000)
+                tasks.append(asyncio.create_task(consume(arg, out)))
+                src_name = dataclasses.replace(req, namespace=req.namespace + ":Source").get_channel_name()
+                src_chans[arg] = registry.get_or_create(Sample[Quantity], src_name)
+                log.append(["req", arg, env.clk()])
+                await req_sender.send(req)
+            elif kind == "close":
+                log.append(["close", arg, env.clk()])
+                await src_chans[arg].close()
+            elif kind == "send":
+                if arg in src_chans and not src_chans[arg].is_closed:
+                    await src_chans[arg].new_sender().send(Sample(dt(start + env.clk()), Quantity(1.0)))
+            else:
+                a = env.clk()
+                clock._ticks += arg
+                sync_wall()
+                log.append(["hog", a, env.clk()])
+        await env.sleep_until(case["duration"])
+        log.append(["end", env.clk()])
+        await actor.stop()
+        me = asyncio.current_task()
+        rest = [t for t in asyncio.all_tasks() if t is not me]
+        for t in rest:
+            t.cancel()
+        await asyncio.gather(*rest, return_exceptions=True)
+        clock.advance = orig_advance
+    return {"log": log}
+
+
+def run_actor_scenario(case):
+    import async_solipsism
+    warnings.filterwarnings("ignore", category=async_solipsism.exceptions.ResolutionWarning)
+    loop = async_solipsism.EventLoop()
+    asyncio.set_event_loop(loop)
+    try:
+        return loop.run_until_complete(_actor_scenario(case, loop))
+    finally:
+        loop.close()
+        asyncio.set_event_loop(None)
+
+
+def gen_actor_case(rng, tier):
+    p, align, start, loop_t0, kind, phase = gen_timing(rng, tier)
+    nticks = rng.randint(5, 10)
+    ph = tick_phase(p, align, start)
+    res = [r for r in (137, 389, 641, 883) if min((r - ph) % 1000, (ph - r) % 1000) > 5]
+    metrics = []
+    for i in range(rng.choice([1, 2, 3])):
+        at = 0 if (i == 0 or rng.random() < 0.5) else rng.randrange(0, (nticks - 2) * p) // 1000 * 1000 + res[0]
+        m = {"req_at": at}
+        if i > 0 and rng.random() < 0.5:
+            m["close_at"] = at + rng.randrange(p, 4 * p) // 1000 * 1000 + res[2]
+        if rng.random() < 0.5:
+            m["nsamples"], m["ip"] = rng.randint(1, 20), rng.choice([p // 2, p, 2 * p])
+        metrics.append(m)
+    hogs = []
+    for _ in range(rng.choice([0, 1, 1, 2])):
+        k = rng.randrange(0, nticks)
+        delta = rng.choice([1, 1000, p // 3])
+        hogs.append([ph + (k + 1) * p - delta, delta + rng.choice([0, 1, 1, 2, 3]) * p] if rng.random() < 0.5 else
+                    [rng.randrange(0, nticks * p) // 1000 * 1000 + res[1], rng.choice([p // 3, p, 5 * p // 2])])
+    hogs.sort()
+    hogs = [h for i, h in enumerate(hogs) if h[0] > 0 and (i == 0 or h[0] > hogs[i - 1][0] + hogs[i - 1][1])]
+    return {"period": p, "align": align, "start": start, "loop_t0": loop_t0, "duration": nticks * p + 500_000,
+            "metrics": metrics, "hogs": hogs, "tag": {"align": kind}}
